@@ -621,6 +621,8 @@ fn main() {
             n += 1;
             cx.rep.nontrivial += 1;
             cx.rep.count_op(c["kind"].as_str().unwrap(), 1);
+            if c["dk"].as_i64().unwrap_or(0) > 0 { cx.rep.count_op(&format!("{}:offgrid", c["kind"].as_str().unwrap()), 1); }
+            if c["huge"].as_i64().unwrap_or(0) > 0 { cx.rep.count_op("srt3:huge", 1); }
             if cx.rep.samples.len() < 3 && n % 211 == 1 { cx.rep.samples.push(c.clone()); }
             let r = catch(|| {
                 let c = &c;
